@@ -1,6 +1,7 @@
 import XPathV.Lemmas.PosSem.Build
 import XPathV.Lemmas.PosSem.Group
 import XPathV.Lemmas.PosSem.Toy
+import XPathV.Lemmas.PosSem.CondBuild
 /-!
 # C03 — positional predicates on child steps use the XPath proximity position
 
@@ -20,6 +21,14 @@ Helper files under `XPathV/Lemmas/PosSem/`:
                `build_posStep`, `build_posChain`
 * `Group`    — `(P)[n]`: `group_lit_core`, `paren_flat_nth`, `paren_desc_nth`
 * `Toy`      — `toy_numOK`: the side conditions `NumOK` are satisfiable (exact integer arithmetic)
+* `PredInput` — the builder's `predInput`: `build_predInput` (threaded unchanged), `posBound`,
+               `build_posBound`, `build_position_fi_is_filtered_step` (every `position()` / `last()` of
+               a predicate's condition counts in the filtered step, whatever steps come before it)
+* `Cond`     — first predicates that look at the node and at its position: `CondOK`, `condTruth`,
+               `keepOfC`, `CondStepOK`, `condStep_filter` / `condStep_merge` (+ cached forms)
+* `CondBuild` — the fragment `PosCond` (comparisons of `position()` / `last()` / literals / paths,
+               boolean predicates of C02, `and` / `or` / `not`), `build_posCond`, `build_condStep`,
+               `MixShape`, `condTruth_mix`
 
 This file: the end-to-end statements and the axiom audit.
 
@@ -193,6 +202,75 @@ theorem C03_chain (a : AxisInfo) (ha : a.axis = "child") (q : Ast) (hq : Frag tr
     build_posChain (F := F) wf cfg hns hinj regexOk limit a ha q hq f hag bs hbs {} st o hb
   exact ⟨qi, fun c hc => hok ⟨c, 1, 1⟩ hc⟩
 
+/-- **C03, positional tests after other location steps** (`a[b and position() = 2]`,
+`a[@k or position() = 1]`, `a[. = last()]`, `a[not(c) and position() < last()]`, …): for every input
+path `q` of the C02 fragment, the step `child::a` and a first predicate `cond` of the fragment
+`PosCond` — comparisons among `position()`, `last()`, number literals and paths of the C02 fragment,
+boolean predicates of the C02 fragment, combined with `and` / `or` / `not` in any order — the plan
+the builder makes of `q/child::a[cond]` (plain filter or merge rewrite) selects exactly the oracle's
+node set: the candidates `x` of an input node `p` on which `cond`, evaluated at `x` with the 1-based
+position of `x` among the candidates of `p` and their number, is true.  `position()` and `last()`
+count in the filtered step `a` wherever they stand in `cond` (`build_position_fi_is_filtered_step`) -/
+theorem C03_after_steps (a : AxisInfo) (ha : a.axis = "child") (q : Ast) (hq : Frag true q)
+    (cond : Ast) (hcond : PosCond cond) (st : BState) (o : BOut)
+    (hb : build regexOk limit true false (.filter (.axis a q) cond) {} st = .ok o)
+    (c : Ref) (hc : validRef d c = true) :
+    ∃ out ns g origins g0, sel (F := F) d cfg o.q c = .ok out ∧
+      Spec.eval (F := F) d (.filter (.axis a q) cond) ⟨c, 1, 1⟩ = .ok (.val (.nodes ns) g) ∧
+      Spec.eval (F := F) d q ⟨c, 1, 1⟩ = .ok (.val (.nodes origins) g0) ∧
+      (∀ x, x ∈ refs out ↔ x ∈ ns) ∧
+      (∀ x, x ∈ ns ↔ ∃ p ∈ origins, ∃ k, (childCands d cfg a p)[k]? = some x ∧
+        condTruth F d cond x (k + 1) (childCands d cfg a p).length = true) := by
+  obtain ⟨qi, _, _, hok⟩ :=
+    build_condStep (F := F) wf cfg hns hinj regexOk limit a ha q hq cond hcond {} st o hb
+  exact (hok ⟨c, 1, 1⟩ hc).mem_iff
+
+/-- the sequence the built plan yields, and the packaging as `PathOK` (so that further boolean
+predicates and steps go on top with the lemmas of C02) -/
+theorem C03_after_steps_seq (a : AxisInfo) (ha : a.axis = "child") (q : Ast) (hq : Frag true q)
+    (cond : Ast) (hcond : PosCond cond) (st : BState) (o : BOut)
+    (hb : build regexOk limit true false (.filter (.axis a q) cond) {} st = .ok o) :
+    ∃ qi, ∀ c, validRef d c = true →
+      CondStepOK F d cfg a cond o.q qi q ⟨c, 1, 1⟩ ∧
+      PathOK (F := F) d cfg o.q (.filter (.axis a q) cond) ⟨c, 1, 1⟩ := by
+  obtain ⟨qi, _, hs, hok⟩ :=
+    build_condStep (F := F) wf cfg hns hinj regexOk limit a ha q hq cond hcond {} st o hb
+  exact ⟨qi, fun c hc => ⟨hok ⟨c, 1, 1⟩ hc, (hok ⟨c, 1, 1⟩ hc).pathOK hs⟩⟩
+
+/-- **`[b and position() op n]`, `[position() op n and b]`, `[b or position() op n]`,
+`[position() op n or b]`** with `b` a boolean predicate of the C02 fragment: the built plan selects
+exactly the oracle's node set, and these are the candidates `x` of an input node `p` such that `b`
+holds at `x` and (resp. or) the 1-based position of `x` among the candidates of `p` compares with
+the literal -/
+theorem C03_bool_with_position (a : AxisInfo) (ha : a.axis = "child") (q : Ast) (hq : Frag true q)
+    (s : MixShape) (b : Ast) (hbf : Frag false b) (cop : Spec.CmpOp) (pfx lex : String)
+    (st : BState) (o : BOut)
+    (hb : build regexOk limit true false
+      (.filter (.axis a q) (s.ast b (PosForm.posCmp cop pfx lex).ast)) {} st = .ok o)
+    (c : Ref) (hc : validRef d c = true) :
+    ∃ out ns g origins g0, sel (F := F) d cfg o.q c = .ok out ∧
+      Spec.eval (F := F) d (.filter (.axis a q) (s.ast b (PosForm.posCmp cop pfx lex).ast)) ⟨c, 1, 1⟩ =
+        .ok (.val (.nodes ns) g) ∧
+      Spec.eval (F := F) d q ⟨c, 1, 1⟩ = .ok (.val (.nodes origins) g0) ∧
+      (∀ x, x ∈ refs out ↔ x ∈ ns) ∧
+      (∀ x, x ∈ ns ↔ ∃ p ∈ origins, ∃ k, (childCands d cfg a p)[k]? = some x ∧
+        s.comb (holds (F := F) d b x)
+          (Spec.cmpNum cop (ofNat (k + 1) : F) (Spec.strToNum lex)) = true) := by
+  obtain ⟨out, ns, g, origins, g0, h1, h2, h3, h4, h5⟩ :=
+    C03_after_steps (F := F) wf cfg hns hinj regexOk limit a ha q hq _
+      (posCond_mix s b _ hbf (posCond_posCmp cop pfx lex)) st o hb c hc
+  refine ⟨out, ns, g, origins, g0, h1, h2, h3, h4, fun x => ?_⟩
+  rw [h5]
+  constructor
+  · rintro ⟨p, hp, k, hk, ht⟩
+    rw [condTruth_mix (F := F) wf cfg hns hinj s b hbf cop pfx lex x
+      (childCands_valid d cfg a p x (List.mem_of_getElem? hk))] at ht
+    exact ⟨p, hp, k, hk, ht⟩
+  · rintro ⟨p, hp, k, hk, ht⟩
+    rw [← condTruth_mix (F := F) wf cfg hns hinj s b hbf cop pfx lex x
+      (childCands_valid d cfg a p x (List.mem_of_getElem? hk)) (k + 1) (childCands d cfg a p).length] at ht
+    exact ⟨p, hp, k, hk, ht⟩
+
 end Build
 
 /-! ## Non-vacuity: the builder succeeds on the forms, and the merge rewrite does fire -/
@@ -222,6 +300,41 @@ example : (build (fun _ => true) 100 true false
 example : ∃ o, build (fun _ => true) 100 true false
     (stackAst (.filter (.axis (ch "b") (.axis (ch "a") .none)) (PosForm.lastMinus "" "1").ast)
       [.axis (ch "c") .none]) {} {} = .ok o := ⟨_, rfl⟩
+
+/-- `a[b and position() = 2]` (the repaired defect): `position()` counts in the filtered step `a`,
+not in the step `b` built just before it -/
+example : (build (fun _ => true) 100 true false
+      (.filter (.axis (ch "a") .none)
+        (MixShape.andPos.ast (.axis (ch "b") .none) (PosForm.posCmp .eq "" "2").ast)) {} {}).map (·.q) =
+    .ok (.filter (.child (ch "a") .context)
+      (.boolean false (.child (ch "b") .context)
+        ((PosForm.posCmp .eq "" "2").plan (.child (ch "a") .context)))) := rfl
+
+/-- `a[. = last()]`: `last()` counts in `a`, not in the step `.` -/
+example : (build (fun _ => true) 100 true false
+      (.filter (.axis (ch "a") .none)
+        (.oper "=" (.axis selfNodeAxis .none) (NumAtom.last "").ast)) {} {}).map (·.q) =
+    .ok (.filter (.child (ch "a") .context)
+      (.logical "=" (.self selfNodeAxis .context) (.func "last" (.child (ch "a") .context) .pnil))) := rfl
+
+/-- `a[count(b) = position()]` (outside the semantic fragment, inside `build_posBound`) -/
+example : (build (fun _ => true) 100 true false
+      (.filter (.axis (ch "a") .none)
+        (.oper "=" (.call "count" "" (.acons (.axis (ch "b") .none) .anil)) (.call "position" "" .anil)))
+      {} {}).map (·.q) =
+    .ok (.filter (.child (ch "a") .context)
+      (.logical "=" (.func "count" .nil (.pcons (.child (ch "b") .context) .pnil))
+        (.func "position" (.child (ch "a") .context) .pnil))) := rfl
+
+/-- a nested predicate counts in its own step: `a[b[position() = 1] and position() = 2]` -/
+example : (build (fun _ => true) 100 true false
+      (.filter (.axis (ch "a") .none)
+        (.oper "and" (.filter (.axis (ch "b") .none) (PosForm.posCmp .eq "" "1").ast)
+          (PosForm.posCmp .eq "" "2").ast)) {} {}).map (·.q) =
+    .ok (.filter (.child (ch "a") .context)
+      (.boolean false
+        (.filter (.child (ch "b") .context) ((PosForm.posCmp .eq "" "1").plan (.child (ch "b") .context)))
+        ((PosForm.posCmp .eq "" "2").plan (.child (ch "a") .context)))) := rfl
 
 end Examples
 
